@@ -274,7 +274,14 @@ func (s *SpecValidator) validateSchemaPropertyNames(nm string, sch spec.Schema, 
 	schc := &sch
 	res := pools.poolOfResults.BorrowResult()
 
+	followed := map[string]struct{}{}
 	for schc.Ref.String() != "" {
+		if _, again := followed[schc.Ref.String()]; again {
+			// a ring of references (a definition that is only a $ref, to itself or back to an earlier one): there is
+			// nothing to gather; the ring is reported as circular ancestry
+			return dups, res
+		}
+		followed[schc.Ref.String()] = struct{}{}
 		// gather property names
 		reso, err := s.resolveRef(&schc.Ref)
 		if err != nil {
@@ -319,7 +326,13 @@ func (s *SpecValidator) validateCircularAncestry(nm string, sch spec.Schema, kno
 	schn := nm
 	schc := &sch
 
+	followed := map[string]struct{}{}
 	for schc.Ref.String() != "" {
+		if _, again := followed[schc.Ref.String()]; again {
+			// a ring of references: following it never ends, and it is an ancestry that comes back to itself
+			return append(ancs, schc.Ref.String()), res
+		}
+		followed[schc.Ref.String()] = struct{}{}
 		reso, err := s.resolveRef(&schc.Ref)
 		if err != nil {
 			errorHelp.addPointerError(res, err, schc.Ref.String(), nm)
